@@ -26,6 +26,13 @@ pub mod io {
 }
 
 pub struct EncodingError { pub opaque: u8 }
+pub mod encoding {
+    use vstd::prelude::*;
+    /// hand transcription of src/encoding.rs: `pub(crate) const UTF8_BOM: &[u8] = &[0xEF, 0xBB, 0xBF];`
+    pub exec const UTF8_BOM: &'static [u8]
+        ensures UTF8_BOM@.len() == 3, UTF8_BOM@[0] == 0xEF, UTF8_BOM@[1] == 0xBB, UTF8_BOM@[2] == 0xBF
+    { &[0xEF, 0xBB, 0xBF] }
+}
 
 pub enum IllFormedError {
     MissingDeclVersion(Option<String>),
